@@ -5,6 +5,7 @@ package hdr
 // block-tree model; which oracles run after each step is selected by the Focus of the leg.
 
 import (
+	"os"
 	"fmt"
 	"math/big"
 	"sort"
@@ -120,6 +121,7 @@ type Focus struct {
 	CleanSnap   bool // snapshot equality around Clean
 	Locators    bool
 	RealDepth   bool // use the real Clean/Load (depth 10000) instead of the hooks
+	DeepReorgs  bool // small regime without the reorganisation-depth precondition (stale forks may overtake)
 	StaleForks  bool // real-depth: always build 2..3 stale forks with the prune boundary among their tips
 }
 
@@ -157,6 +159,9 @@ var bitsLadder = []uint32{0x1d00ffff, 0x1d00ffff, 0x1d00ffff, 0x1c7fffff, 0x1d00
 func (m *M) ctx() interface{} { return nil }
 
 func newMachine(t *rapid.T, k *evid.Case, f Focus) *M {
+	if os.Getenv("VERIF_NOP2") != "" {
+		f.DeepReorgs = true
+	}
 	m := &M{t: t, k: k, f: f, tree: model.NewTree(mainGenesis), refusalClasses: map[Verdict]int{},
 		sideBornBeforeClean: map[*model.Node]bool{}}
 	m.depth = rapid.IntRange(3, 12).Draw(t, "pruneDepth")
@@ -393,10 +398,18 @@ func (m *M) expected(inst *Inst, raw *model.RawHeader) (allowed map[Verdict]bool
 		applicable++
 	}
 	best := m.reported(inst)
-	if len(acceptedChildren(inst, parent)) > 0 || dontCare { // starts a new fork
+	// A child that a Load dropped from the model's obligation set may still be known to the
+	// instance (the set is a lower bound): whether the submission starts a new fork is then open.
+	forgottenKids := false
+	for _, c := range parent.Children {
+		if inst.forgot[c] && c.Hash != raw.Hash() {
+			forgottenKids = true
+		}
+	}
+	if len(acceptedChildren(inst, parent)) > 0 || dontCare || forgottenKids { // starts a new fork
 		if best.Height-parent.Height > m.mbd {
 			allowed[VDepth] = true
-			if !dontCare {
+			if !dontCare && len(acceptedChildren(inst, parent)) > 0 {
 				applicable++
 			}
 		}
@@ -446,7 +459,11 @@ func (m *M) submit(raw model.RawHeader, what string) {
 			if parent != nil {
 				lca = model.LCA(parent, prevTip).Height
 			}
-			m.fail(inst, "ProcessHeader(%s) answered %s (%v); reference allows %v (dontCare=%v; attach point forks from the best chain at height %d, tip height %d, prune depth %d, MaxBranchDepth %d)", what, v, err, keys(allowed), dontCare, lca, prevTip.Height, m.effDepth(), m.mbd)
+			pinfo := ""
+			if parent != nil {
+				pinfo = fmt.Sprintf("; parent accepted=%v held=%v forgot=%v accepted children=%d of %d", inst.acc[parent], inst.held[parent], inst.forgot[parent], len(acceptedChildren(inst, parent)), len(parent.Children))
+			}
+			m.fail(inst, "ProcessHeader(%s) answered %s (%v); reference allows %v (dontCare=%v; attach point forks from the best chain at height %d, tip height %d, prune depth %d, MaxBranchDepth %d%s)", what, v, err, keys(allowed), dontCare, lca, prevTip.Height, m.effDepth(), m.mbd, pinfo)
 		}
 		if v != VOK {
 			m.refusalClasses[v]++
@@ -792,11 +809,11 @@ func (m *M) checkLookups(inst *Inst, full bool) {
 		hdr, gh, gflag, gerr := inst.repo.GetHeader(ctx, h32)
 		ph, pheight := inst.repo.PreviousHash(h32)
 		onBest := model.IsAncestorOrEqual(n, tip)
-		if inst.forgot[n] {
-			// dropped by a Load: either forgotten or remembered with its true height, never
-			// reported as in the most-work chain
+		if inst.forgot[n] || (inst.excluded[n] && !inst.acc[n]) {
+			// dropped by a Load, or removed by an invalid mark (C17's subject): either forgotten
+			// or remembered with its true height, never reported as in the most-work chain
 			if (hh != -1 && hh != n.Height) || (cerr == nil && (ch != n.Height || flag)) || (gerr == nil && (gflag || fromWire(hdr).Hash() != n.Hash)) {
-				m.fail(inst, "side-branch header %s dropped by Load: HashHeight=%d CheckHeader=(%d,%v,%v) GetHeader flag=%v err=%v", n.Label, hh, ch, flag, cerr, gflag, gerr)
+				m.fail(inst, "header %s dropped by Load or removed by a mark: HashHeight=%d CheckHeader=(%d,%v,%v) GetHeader flag=%v err=%v", n.Label, hh, ch, flag, cerr, gflag, gerr)
 			}
 			continue
 		}
